@@ -127,13 +127,35 @@ func Analyse(sc *engine.Scenario, res *engine.Result) *Analysis {
 		case "sock-close":
 			c.Closes = append(c.Closes, e)
 		case "lock":
-			c.Locks = append(c.Locks, e)
+			// the call's own goroutine only (not a reader goroutine of an earlier call lingering in this task)
+			if !strings.Contains(e.G, "/") {
+				c.Locks = append(c.Locks, e)
+			}
 		}
 	}
 	return an
 }
 
 func (c *Call) name() string { return c.St.Op.String() }
+
+// Turn is the instant the call's turn began: when it obtained the shared fixed bind port (the
+// lock taken before its first socket), or its start when it did not have to queue.
+func (c *Call) Turn() time.Duration {
+	first := -1
+	for _, evs := range [][]vnet.Ev{c.Socks, c.KFails} {
+		for _, e := range evs {
+			if first < 0 || e.Seq < first {
+				first = e.Seq
+			}
+		}
+	}
+	for _, l := range c.Locks {
+		if first < 0 || l.Seq < first {
+			return l.T
+		}
+	}
+	return c.Begin.T
+}
 
 // injected: a system call failed because the scenario said so.
 func (c *Call) injected() bool {
